@@ -64,6 +64,9 @@ def configs(tier, seed):
             if p >= 1:
                 cfgs.append(dict(name=f"reduce-none {tag}", kind="none", **base))
                 cfgs.append(dict(name=f"reduce-band {tag}", kind="band", **base))
+            if p >= 2:
+                # vector-valued points: x(u) = u is exactly reducible, y is arbitrary -- the worst coordinate decides
+                cfgs.append(dict(name=f"reduce-band2d {tag}", kind="band2d", **base))
             if 1 <= p <= 2 and len(pat) == 3:
                 cfgs.append(dict(name=f"roundtrip {tag} t=1 rat", kind="roundtrip", t=1, rat=True, dim=0, **base))
     cfgs.append(dict(name="invalid requests", kind="invalid"))
@@ -178,7 +181,12 @@ def body(env, cfg):
         return
 
     # band
-    P = _mixed_points(env, "P", kv.n, {0, kv.n // 2}, p)
+    if kind == "band2d":
+        ys = _mixed_points(env, "P", kv.n, {0, kv.n // 2}, p)
+        xs = [sum(kv.U[i + 1: i + p + 1], F(0)) / p for i in range(kv.n)]      # Greville abscissae: x(u) = u
+        P = [np.array([env.const(x), y], dtype=object) for x, y in zip(xs, ys)]
+    else:
+        P = _mixed_points(env, "P", kv.n, {0, kv.n // 2}, p)
     c = Curve(list(kv.U), P)
     snap = kmode.snapshot(c)
     try:
